@@ -87,9 +87,6 @@ def gen_text(rng, max_words=4, braces=True, allow_malformed=False, placeholders=
         kinds.add(k)
     sep = '  ' if rng.random() < 0.08 else ' '
     text = sep.join(words)
-    if allow_malformed and rng.random() < 0.02:
-        text += ' 50%'       # a lone `%` at the very end: "incomplete format"
-        kinds.add('malformed')
     return text, kinds
 
 
@@ -151,6 +148,11 @@ def gen_config(rng, for_sessions=False, allow_malformed=True, braces=None, env_t
             d['extra_args'] = 'm%dm %s' % (j, text(2)) if rng.random() < 0.5 else 'm%dm' % j
         elif rng.random() < 0.5:
             d['extra_args'] = text(3)
+        if allow_malformed and not for_sessions and rng.random() < 0.02:
+            # a lone `%` at the very end of the whole command line: "incomplete format"
+            # (anywhere else Python would read the following characters as a format specification)
+            d['extra_args'] = (d.get('extra_args') or 'x') + ' 50%'
+            kinds.add('malformed')
         bench_info[name] = {'command': d.get('command', name), 'extra_args': d.get('extra_args')}
         benchmarks.append({name: d} if d else name)
     suite = {'gauge_adapter': 'RebenchLog', 'command': text(5), 'benchmarks': benchmarks}
